@@ -201,7 +201,9 @@ def is_lambda(a_function: CallableT) -> bool:
 
     :return: True if condition is defined as lambda function
     """
-    return a_function.__name__ == "<lambda>"
+    # A condition can be any callable (*e.g.*, a ``functools.partial`` or an object with ``__call__``), and not
+    # every callable has a name.
+    return getattr(a_function, "__name__", None) == "<lambda>"
 
 
 class ConditionLambdaInspection:
@@ -598,11 +600,20 @@ def repr_values(condition: Callable[..., bool], lambda_inspection: Optional[Cond
     return parts
 
 
+def _name_of_condition(condition: CallableT) -> str:
+    """Give the name of the condition which is not a lambda, or its representation if it has no name."""
+    name = getattr(condition, "__name__", None)
+    if isinstance(name, str):
+        return name
+
+    return repr(condition)
+
+
 def represent_condition(condition: CallableT) -> str:
     """Represent the condition as a string."""
     lambda_inspection = None  # type: Optional[ConditionLambdaInspection]
     if not is_lambda(a_function=condition):
-        condition_repr = condition.__name__
+        condition_repr = _name_of_condition(condition=condition)
     else:
         # We need to extract the source code corresponding to the decorator since inspect.getsource() is broken with
         # lambdas.
@@ -625,7 +636,7 @@ def generate_message(contract: Contract, resolved_kwargs: Mapping[str, Any]) -> 
 
     lambda_inspection = None  # type: Optional[ConditionLambdaInspection]
     if not is_lambda(a_function=contract.condition):
-        condition_text = contract.condition.__name__
+        condition_text = _name_of_condition(condition=contract.condition)
     else:
         # We need to extract the source code corresponding to the decorator since inspect.getsource() is broken with
         # lambdas.
